@@ -254,6 +254,19 @@ func (e *Enc) builtin(x *ssa.Call, b *ssa.Builtin, cc *callCtx) {
 // shorter view only in the patterns it can see (none in the functions under contract).
 func (e *Enc) appendBuiltin(x *ssa.Call, cc *callCtx) {
 	g := e.g()
+	// in-place append through a shorter view of a live slice: value semantics are only faithful when the original slice is
+	// not read again. Inside a loop that continues afterwards (range over the same backing array) it is outside the subset.
+	if sl, ok := cc.args[0].(*ssa.Slice); ok && sl.High != nil {
+		if _, isSlice := types.Unalias(sl.X.Type()).Underlying().(*types.Slice); isSlice && e.loopDepthOf(x.Block()) > 0 {
+			leaves := false
+			if len(x.Block().Succs) == 1 {
+				leaves = e.loopDepthOf(x.Block().Succs[0]) < e.loopDepthOf(x.Block())
+			}
+			if !leaves {
+				e.r.errorf("outside subset: in-place append through a sub-slice inside a loop that continues (aliasing of the backing array) in %s", e.fn.Name())
+			}
+		}
+	}
 	s := g.SortOf(x.Type())
 	es := g.sliceElem[s]
 	a := e.val(cc.args[0])
